@@ -191,6 +191,9 @@ func TestC09(t *testing.T) {
 		}
 		gen := func(rt *rapid.T) c09Case {
 			base := model.GenCase(rt, cfg)
+			if rapid.IntRange(0, 2).Draw(rt, "tmpl") == 0 {
+				base.Exec.Formatter = model.TemplateFormatter // messages built from multi-placeholder templates and the tests' parameter maps
+			}
 			addOrderProbes(base.Root)
 			cc := c09Case{Variants: []model.Case{base}}
 			for k := 1; k < K; k++ {
